@@ -10,6 +10,7 @@ package configmgr
 import (
 	"bufio"
 	"context"
+	"crypto/md5"
 	"encoding/hex"
 	"fmt"
 	"math/rand"
@@ -54,6 +55,7 @@ type c13Env struct {
 	rbN        int // Rollback calls seen in the current commit
 	rbFail     int // the k-th Rollback call returns an error (0 = never)
 	recordEmit bool
+	conc       bool // concurrent mode: an Apply of the value "FAIL" fails, every Rollback takes a while
 	valFail    bool
 	frrLog     string
 	frrCtl     string
@@ -198,7 +200,7 @@ func (h *c13Handler) Apply(ctx context.Context, hctx *conf.HandlerContext) error
 	h.env.mu.Lock()
 	defer h.env.mu.Unlock()
 	h.env.applyN++
-	if h.env.applyFail != 0 && h.env.applyN == h.env.applyFail {
+	if (h.env.applyFail != 0 && h.env.applyN == h.env.applyFail) || (h.env.conc && c13Val(hctx.NewValue) == c13Poison) {
 		h.env.trace = append(h.env.trace, "A!"+hctx.Path+"="+c13Val(hctx.NewValue))
 		return fmt.Errorf("injected apply failure")
 	}
@@ -208,7 +210,14 @@ func (h *c13Handler) Apply(ctx context.Context, hctx *conf.HandlerContext) error
 	h.env.trace = append(h.env.trace, "A:"+hctx.Path+"="+c13Val(hctx.NewValue))
 	return nil
 }
+
+// the value whose Apply fails in concurrent scenarios (independent of the interleaving, unlike a call counter)
+var c13Poison = "s" + hex.EncodeToString([]byte("FAIL"))
+
 func (h *c13Handler) Rollback(ctx context.Context, hctx *conf.HandlerContext) error {
+	if h.env.conc {
+		time.Sleep(300 * time.Microsecond) // undoing takes time: whoever could run meanwhile, will
+	}
 	h.env.mu.Lock()
 	defer h.env.mu.Unlock()
 	h.env.rbN++
@@ -779,6 +788,7 @@ func c13RunCase(line string, root string, idx int, templates string) (res string
 		p += 2
 	}
 	if conc {
+		env.conc = true
 		c13Envs.Store(cd, env)
 		defer c13Envs.Delete(cd)
 		seed, _ := strconv.ParseInt(os.Getenv("VERIF_SEED"), 10, 64)
@@ -1076,8 +1086,7 @@ func c13RunConc(cd *ConfigManager, f []string, goodStartup, goodVerDir string, s
 				case op == "g":
 					// a reader: running must always be a configuration some commit published
 					cfg, _ := cd.GetRunning()
-					_ = c13Project(cfg)
-					r = "ok"
+					r = fmt.Sprintf("g:%x", md5.Sum([]byte(c13Project(cfg))))
 				default:
 					r = "badop"
 				}
